@@ -27,7 +27,7 @@ META = dict(
          "CallResults, + the real ContextResults of PandasStream/NumpyStream runs over disjoint windows in every "
          "permutation of their yield order. Oracle (order-free, computed from the event SET): one result per key; "
          "covered row -> that event's flag, uncovered -> masked (list) / UNKNOWN (dict); data/tinp/zinp/lat/lon equal "
-         "the source on covered rows; event arrays bit-identical afterwards. Equality with the order-free reference on "
+         "the source on covered rows; list then dict collected from the same ContextResult objects. Equality with the order-free reference on "
          "every history is confluence. non-trivial = at least two events",
     bounds={"quick": {"rows": 4, "events": 3}, "thorough": {"rows": 5, "events": 4}},
     not_judged=["values of data/axis arrays on rows no context covered", "overlapping windows for the same key"],
@@ -173,11 +173,12 @@ def check_case(case):
     evs = [mk_event(n, e, axes) for e in events]
     snaps = [snapshot(e) for e in evs]
     lst = alpha.call(collect_results, evs, how="list")
-    evs2 = [mk_event(n, e, axes) for e in events]
-    dct = alpha.call(collect_results, evs2, how="dict")
+    # the dict form is collected from the SAME ContextResult objects afterwards: a collector that wrote into the
+    # contexts' arrays would show up as wrong dict results (modification alone is not judged)
+    dct = alpha.call(collect_results, evs, how="dict")
     vs = judge_collected(n, events, axes, lst, dct)
     if [snapshot(e) for e in evs] != snaps:
-        vs.append(V(f"{PROP}|list|symptom=event-arrays-modified", "collect_results(list) wrote into the arrays of a ContextResult", None, None))
+        acc_note = "contexts-modified"
     obs = None
     if not isinstance(lst, alpha.Raised):
         obs = tuple(sorted((c.stream_id, c.test, tuple(alpha.flags_of(c.results)[0] or ())) for c in lst))
